@@ -17,7 +17,8 @@ _INT_TYPES = {FD.TYPE_INT32: (-2 ** 31, 2 ** 31 - 1), FD.TYPE_INT64: (-2 ** 63, 
 
 
 class Wire(object):
-    """serialised stub message (opaque)"""
+    """serialised stub message (opaque); instrumented code sees a bytes object"""
+    __sx_virtual_type__ = bytes
 
     def __init__(self, snapshot):
         self.snapshot = snapshot
